@@ -35,6 +35,13 @@ func (t T) String() string {
 	if t.K == 4 {
 		return "279/v4242(opaque)"
 	}
+	if t.K == 5 {
+		var s []string
+		for _, k := range t.Kids {
+			s = append(s, k.String())
+		}
+		return fmt.Sprintf("33(OctetString in the dictionary){%s}", strings.Join(s, " "))
+	}
 	if t.K < 2 {
 		return fmt.Sprint(c20Codes[t.K])
 	}
@@ -81,6 +88,11 @@ func c20Build(t T) *diam.AVP {
 	g := &diam.GroupedAVP{}
 	for _, k := range t.Kids {
 		g.AddAVP(c20Build(k))
+	}
+	if t.K == 5 {
+		// a container the dictionary declares as OctetString (Proxy-State), assembled as a group by
+		// the application: the search follows the tree, not the dictionary's type declarations
+		return diam.NewAVP(33, 0x40, 0, g)
 	}
 	return diam.NewAVP(c20Codes[t.K], 0x40, 0, g)
 }
@@ -198,7 +210,10 @@ func c20Eval(cs C20Case) (res string, queries int) {
 				qs = append(qs, q{n, 9999, "name of an absent code in the private dictionary: " + n})
 			}
 		}
-		qs = append(qs, q{uint32(c20AbsentCode), c20AbsentCode, "absent 263"}, q{c20AbsentName, c20AbsentCode, "absent Session-Id"}, q{uint32(c20UndefCode), c20UndefCode, "undefined 60001"}, q{"No-Such-AVP", 0, "undefined name"})
+		if !cs.Priv {
+		qs = append(qs, q{uint32(33), 33, "33"}, q{"Proxy-State", 33, "Proxy-State"})
+	}
+	qs = append(qs, q{uint32(c20AbsentCode), c20AbsentCode, "absent 263"}, q{c20AbsentName, c20AbsentCode, "absent Session-Id"}, q{uint32(c20UndefCode), c20UndefCode, "undefined 60001"}, q{"No-Such-AVP", 0, "undefined name"})
 		for _, x := range qs {
 			var want []*diam.AVP
 			if x.code != 0 {
@@ -225,6 +240,9 @@ func c20Eval(cs C20Case) (res string, queries int) {
 		// paths of length <= 3 over the alphabet + the absent code, by number and by name
 		alpha := append(append([]uint32{}, c20Codes...), c20AbsentCode)
 		names := append(append([]string{}, c20Names...), c20AbsentName)
+		if !cs.Priv {
+			alpha, names = append(alpha, 33), append(names, "Proxy-State")
+		}
 		var paths [][]int
 		for a := range alpha {
 			paths = append(paths, []int{a})
@@ -367,6 +385,9 @@ func c20Enum(ctx *ev.Ctx, fn func(C20Case)) string {
 		next = append(next, T{K: 0}, T{K: 1}, T{K: 4})
 		for _, s := range seqs(levels[d-1], w) {
 			next = append(next, T{K: 2, Kids: s}, T{K: 3, Kids: s})
+			if d == 1 && len(s) <= 2 {
+				next = append(next, T{K: 5, Kids: s})
+			}
 		}
 		levels = append(levels, next)
 	}
@@ -396,7 +417,7 @@ func c20Enum(ctx *ev.Ctx, fn func(C20Case)) string {
 			}
 		}
 	}
-	return "all AVP trees over two leaf codes, two grouped codes and one leaf that carries the code of a Grouped AVP under a foreign vendor id (opaque data, not a group): every single node of nesting depth <=3 with inner width <=3 (outermost group: <=2 children quick, <=3 thorough), alone and next to a leaf in both orders; every ordered pair (and a family of triples) of depth-<=2 nodes; empty groups, repeated codes at several depths, groups in groups. Per tree: FindAVP and FindAVPs by uint32, int and name for every code of the alphabet, a defined but absent code, an undefined code and an undefined name; FindAVPsWithPath for every path of length <=3 over the alphabet plus the absent code, alternating number and name per step. Every tree is searched twice: in a message carrying dict.Default and in one carrying a private dictionary that names the four codes differently and attaches the default names to codes absent from the tree (a name must resolve through the message's own dictionary). After the first round of queries each message is edited without going through Message.AddAVP / InsertAVP (a member added to its first group, its first top-level AVP cut out of the exported slice, its AVPs replaced by Marshal) and every query is asked again. Path searches are also made overlapping in time (a nested search on another message, started from inside the outer one through a caller-defined data type) after a search whose path did not resolve. Results are compared by pointer identity with a pre-order reference walk / strict per-level match."
+	return "all AVP trees over two leaf codes, two grouped codes and one leaf that carries the code of a Grouped AVP under a foreign vendor id (opaque data, not a group) and one container whose code the dictionary declares as OctetString but which the application assembled as a group: every single node of nesting depth <=3 with inner width <=3 (outermost group: <=2 children quick, <=3 thorough), alone and next to a leaf in both orders; every ordered pair (and a family of triples) of depth-<=2 nodes; empty groups, repeated codes at several depths, groups in groups. Per tree: FindAVP and FindAVPs by uint32, int and name for every code of the alphabet, a defined but absent code, an undefined code and an undefined name; FindAVPsWithPath for every path of length <=3 over the alphabet plus the absent code, alternating number and name per step. Every tree is searched twice: in a message carrying dict.Default and in one carrying a private dictionary that names the four codes differently and attaches the default names to codes absent from the tree (a name must resolve through the message's own dictionary). After the first round of queries each message is edited without going through Message.AddAVP / InsertAVP (a member added to its first group, its first top-level AVP cut out of the exported slice, its AVPs replaced by Marshal) and every query is asked again. Path searches are also made overlapping in time (a nested search on another message, started from inside the outer one through a caller-defined data type) after a search whose path did not resolve. Results are compared by pointer identity with a pre-order reference walk / strict per-level match."
 }
 
 func runC20(ctx *ev.Ctx) {
